@@ -510,7 +510,26 @@ func orchestrate(c *Check, tier string, nproc int) int {
 	if c.Race != nil {
 		if bin := os.Getenv("VERIF_RACE_BIN"); bin != "" {
 			jobs = append(jobs, "racepass")
-			results = append(results, runRacePass(c, bin, tier))
+			// a tree on which the scheduled exploration has already found a violation that is not a
+			// recorded finding is reported as violating anyway; on such a tree the free-running
+			// pass may never make progress (a broken transfer retransmits for ever), so it is not run
+			unlisted := false
+			for _, r := range results {
+				for _, v := range r.Violations {
+					prop := v.Property
+					if prop == "" {
+						prop = c.ID
+					}
+					if !IsKnown(prop, v.Key) {
+						unlisted = true
+					}
+				}
+			}
+			if unlisted {
+				results = append(results, &Result{Job: "racepass", Exhaustive: false, Caps: []string{"free-running race pass not run: the scheduled exploration already found a violation"}})
+			} else {
+				results = append(results, runRacePass(c, bin, tier))
+			}
 		}
 	}
 	return finish(c, tier, start, jobs, results, harnessErrs)
@@ -822,6 +841,14 @@ func runJobIsolated(c *Check, job, tier string) (string, bool) {
 // race detector is a true positive (the detector has no false positives), so one report is a
 // violation without further reproduction; the harness bodies of the pass keep their own
 // bookkeeping in per-goroutine or atomic variables.
+// raceCap bounds the free-running pass (it takes seconds on a tree where transfers complete).
+func raceCap(tier string) time.Duration {
+	if tier == "thorough" {
+		return 15 * time.Minute
+	}
+	return 5 * time.Minute
+}
+
 func runRacePass(c *Check, bin, tier string) *Result {
 	res := &Result{Job: "racepass", Exhaustive: true}
 	cmd := exec.Command(bin, c.ID, "--tier", tier, "--racejob")
@@ -839,10 +866,10 @@ func runRacePass(c *Check, bin, tier string) *Result {
 	var werr error
 	select {
 	case werr = <-done:
-	case <-time.After(15 * time.Minute):
+	case <-time.After(raceCap(tier)):
 		cmd.Process.Kill()
 		res.Exhaustive = false
-		res.Caps = append(res.Caps, "free-running race pass did not finish within 15 minutes (not counted as a violation)")
+		res.Caps = append(res.Caps, fmt.Sprintf("free-running race pass did not finish within %v (not counted as a violation)", raceCap(tier)))
 		return res
 	}
 	errText := tail.String()
